@@ -783,6 +783,35 @@ func genScenTags(r *rand.Rand, engine bool) string {
 	return strings.Replace(base, "@RUN@", "sched", 1) + " sched=" + schedFor(r, n, 2+r.Intn(4))
 }
 
+// genScenReqForms: the forms of a scenario's request list: name, name(count), name(count, sleep), sleep(ms) between steps,
+// a count of 0 (no step), and the lists the provider must REJECT: a pause before any step (also after a name(0), which
+// adds no step), more steps than MaxScenarioRequests (1 Mi) in one entry or summed over several.
+func genScenReqForms(r *rand.Rand) string {
+	calls := "h|" + svc + "Hello|x-user:u-{U}|name:s.{U}|u;g|" + svc + "Hello|x-g:{G}|name:s.g|-"
+	var reqs string
+	switch r.Intn(9) {
+	case 0:
+		reqs = "sleep5+h" // rejected
+	case 1:
+		reqs = "h*0+sleep5+g" // rejected: name(0) adds no step
+	case 2:
+		reqs = "h*1048577" // rejected
+	case 3:
+		reqs = fmt.Sprintf("h*%d+g*%d+h", 1+r.Intn(3), 1048576-r.Intn(2)) // rejected: the sum is too large
+	case 4:
+		reqs = "h*0+g+h*2"
+	case 5:
+		reqs = fmt.Sprintf("h+sleep%d+g*2_%d+sleep%d+sleep%d+h*0+h", 1+r.Intn(20), 1+r.Intn(20), 1+r.Intn(9), 1+r.Intn(9))
+	case 6:
+		reqs = "g*0+h*0+g"
+	default:
+		reqs = fmt.Sprintf("h*%d+g*%d_%d+h*1_%d", 1+r.Intn(3), r.Intn(3), r.Intn(15), r.Intn(15))
+	}
+	n := pick(r, []int{1, 2})
+	return fmt.Sprintf("mode=scen run=sched n=%d tmo=0 users=1,2,3 g=%s calls=%s scns=s:1:%s sched=%s", n, c20lib.Enc(randText(r, 3, "ghi")),
+		calls, reqs, schedFor(r, n, 2+r.Intn(3)))
+}
+
 // genScenCollide: names chosen so that "<scenario>_<call>" of one step equals that of another step with different
 // templates (scenario a_b + call c, scenario a + call b_c), the same metadata keys in both, sometimes a metadata key
 // called "payload": a template cache keyed by joined names would hand one step the other's templates.
@@ -1018,6 +1047,13 @@ func gen(r *rand.Rand, tier string) []string {
 	}
 	for i := 0; i < ntag; i++ {
 		out = append(out, genScenTags(r, i%8 == 7))
+	}
+	nreq := 9
+	if tier == "thorough" {
+		nreq = 60
+	}
+	for i := 0; i < nreq; i++ {
+		out = append(out, genScenReqForms(r))
 	}
 	return out
 }
